@@ -13,7 +13,7 @@ from pathlib import Path
 import numpy as np
 
 import drvlib as D
-from incomplete_cooperative.evaluation import evaluate
+from incomplete_cooperative.evaluation import eval_one, evaluate
 from incomplete_cooperative.run.model import ModelInstance
 from incomplete_cooperative.solvers import SOLVERS
 
@@ -92,7 +92,7 @@ def main():
             repetitions = reps_choices[ci % len(reps_choices)]
             seed = a.seed * 1000 + ci * 17 + n
             first = None
-            for p in procs:
+            for p in procs + ([0] if ci % 2 == 0 else []):          # p = 0: eval_one called directly, repetition by repetition
                 tid += 1
                 comp, r = COMP[cls]
                 mode = "exact" if gen in ("factory", "factory_square") else "quant"
@@ -103,8 +103,15 @@ def main():
                     inst = ModelInstance(number_of_players=n, game_class=cls, game_generator=gen, gap_function=gap, run_steps_limit=steps,
                                          seed=seed, parallel_environments=p)
                     solver = SOLVERS[solver_name](inst)
-                    expl, acts = evaluate(solver.next_step, TaggedEnvs(inst), repetitions, steps, inst.gap_function_callable, p,
-                                          Recorder(str(log), solver.after_reset))
+                    if p == 0:
+                        gen_envs = TaggedEnvs(inst)
+                        rec = Recorder(str(log), solver.after_reset)
+                        cols = [eval_one(solver.next_step, gen_envs(), steps, inst.gap_function_callable, rec) for _ in range(repetitions)]
+                        expl = np.vstack([c[0] for c in cols]).T
+                        acts = np.vstack([c[1] for c in cols]).T
+                    else:
+                        expl, acts = evaluate(solver.next_step, TaggedEnvs(inst), repetitions, steps, inst.gap_function_callable, p,
+                                              Recorder(str(log), solver.after_reset))
                     recs = {}
                     if log.exists():
                         for line in log.read_text().splitlines():
@@ -133,10 +140,13 @@ def main():
                             rep["gaps"] = [gap_iv(g, n, gap, mode, scale, grid, M) for g in col_g]
                             sig.append((tuple(rr[0]["hid"]), tuple(x.hex() for x in col_g), tuple(col_a)))
                         t["reps"].append(rep)
-                    if first is None:
-                        first = sig
-                    t["same_p1"] = int(sig == first)
-                    t["games_same_p1"] = int([x[0] for x in sig] == [x[0] for x in first])
+                    if p == 0:
+                        t["same_p1"], t["games_same_p1"] = -1, -1       # a different call path: not compared with evaluate()
+                    else:
+                        if first is None:
+                            first = sig
+                        t["same_p1"] = int(sig == first)
+                        t["games_same_p1"] = int([x[0] for x in sig] == [x[0] for x in first])
                 except D.DriverError:
                     raise
                 except Exception as ex:  # noqa: BLE001
